@@ -77,9 +77,9 @@ def compile_probe(deps, rlibs, path, outdir, config=DEV):
     return cmd
 
 
-def run_probes(ctx, kind, quick, configs=(DEV,)):
-    binary = common.cargo_build("layoutmon", "fastdebug")
-    d = os.path.join(common.WORK, "probes-%s-%s-%d" % (kind, ctx.tier, ctx.seed))
+def run_probes(ctx, kind, quick, configs=(DEV,), binary=None, tag=""):
+    binary = binary or common.cargo_build("layoutmon", "fastdebug")
+    d = os.path.join(common.WORK, "probes-%s-%s-%d%s" % (kind, ctx.tier, ctx.seed, tag))
     rc, out, err = common.sh([binary, "emit-probes", "--kind", kind, "--quick", "1" if quick else "0", "--seed", str(ctx.seed), "--out-dir", d], timeout=900)
     if rc != 0:
         raise Inconclusive("probe emitter failed: %s" % (err or "")[-500:])
@@ -103,6 +103,19 @@ def run_c11(ctx):
     # every probe is compiled the way a dev build and the way a release build compiles the
     # crate that includes the generated module: the rejection must not depend on the profile
     d, manifest, results = run_probes(ctx, "c11", ctx.quick, configs=(DEV, RELEASE))
+    c11_verdicts(ctx, d, manifest, results, "")
+    ctx.subruns.append({"engine": "rustc --emit=metadata on generate() output", "probes": len(manifest), "dir": d,
+                        "compiler_configurations": ["dev (debug assertions on)", "release (" + " ".join(RELEASE[1]) + ")"]})
+    # the same probes from a generator built with every cargo feature of truc switched on
+    allf, feats = common.cargo_build_all_features("layoutmon", "fastdebug")
+    if allf:
+        d2, manifest2, results2 = run_probes(ctx, "c11", True, configs=(DEV, RELEASE), binary=allf, tag="-allfeatures")
+        c11_verdicts(ctx, d2, manifest2, results2, "generator built with the cargo features %s of truc" % ", ".join(feats))
+        ctx.subruns.append({"engine": "rustc --emit=metadata on generate() output", "probes": len(manifest2), "dir": d2,
+                            "generator_built_with_truc_features": feats})
+
+
+def c11_verdicts(ctx, d, manifest, results, variant):
     # controls first: a cell whose control does not compile decides nothing
     bad_controls = 0
     for m, config in [(m, c[0]) for m in manifest for c in (DEV, RELEASE)]:
@@ -111,6 +124,10 @@ def run_c11(ctx):
             m = dict(m)
             m["description"] = "%s [compiled with %s]" % (m["description"], " ".join(RELEASE[1]))
             m["signature"] = m["signature"] + " [release]"
+        if variant:
+            m = dict(m)
+            m["description"] = "%s [%s]" % (m["description"], variant)
+            m["signature"] = m["signature"] + " [all features]"
         ctx.evaluations += 1
         if rc is None:
             ctx.inconclusive.append("probe %s timed out" % m["file"])
@@ -122,7 +139,7 @@ def run_c11(ctx):
                 if bad_controls <= 3:
                     ctx.inconclusive.append("control does not compile (%s): %s" % (m["description"], err.strip().splitlines()[:2]))
             continue
-        if config == "dev":
+        if config == "dev" and not variant:
             ctx.distinct += 1
         c = codes(err)
         if rc == 0:
@@ -139,8 +156,6 @@ def run_c11(ctx):
             ctx.inconclusive.append("probe rejected, but not by a size/alignment assertion or a Copy bound (%s): %s" % (m["description"], err.strip().splitlines()[:2]))
         if len(ctx.samples) < 6 and ctx.evaluations % 41 == 0:
             ctx.samples.append("%s -> %s %s" % (m["description"], "compiles" if rc == 0 else "rejected", c))
-    ctx.subruns.append({"engine": "rustc --emit=metadata on generate() output", "probes": len(manifest), "dir": d,
-                        "compiler_configurations": ["dev (debug assertions on)", "release (" + " ".join(RELEASE[1]) + ")"]})
 
 
 def run_c14(ctx):
@@ -318,9 +333,38 @@ def write_crate(d, name, extra, main_text):
         shutil.copy(os.path.join(common.HARNESS, "Cargo.lock"), os.path.join(d, "Cargo.lock"))
 
 
+# types that optional dependencies of truc bring into its type tables, by cargo feature: what the
+# grammar adds as leaves when truc is built with that feature (dependency line for the crates)
+FEATURE_LEAVES = {"uuid": (["uuid::Uuid"], 'uuid = "1"\n')}
+
+
 def run_c17(ctx):
     types = grammar(ctx)
     root = os.path.join(common.WORK, "tn-%s-%d" % (ctx.tier, ctx.seed))
+    c17_pass(ctx, types, root, 'truc = { path = "/repo/truc" }\n', "", True)
+    # truc built with every cargo feature it has: the types those features add are leaves of a
+    # smaller grammar, next to a sample of the main one
+    feats = common.truc_features()
+    if feats:
+        leaves, deps = [], ""
+        for f in feats:
+            if f in FEATURE_LEAVES:
+                leaves += FEATURE_LEAVES[f][0]
+                deps += FEATURE_LEAVES[f][1]
+        rnd = random.Random(ctx.seed * 31 + 7)
+        small = list(BASE) + leaves
+        small += [u.format(t) for u in UNARY for t in leaves + BASE[:4]]
+        small += [b.format(x, y) for b in BINARY for x in (leaves or BASE[:1]) for y in BASE[:3] + leaves]
+        small += [u.format(v.format(t)) for u in UNARY[:6] for v in UNARY[:6] for t in leaves]
+        small += rnd.sample(types, min(len(types), 150 if ctx.quick else 1500))
+        seen = set()
+        small = [t for t in small if not (t in seen or seen.add(t))]
+        truc_dep = 'truc = { path = "/repo/truc", features = [%s] }\n' % ", ".join('"%s"' % f for f in feats)
+        c17_pass(ctx, small, root + "-allfeatures", truc_dep + deps, deps, False)
+        ctx.subruns.append({"engine": "the same two stages with truc built with its cargo features", "features": feats, "extra_leaf_types": leaves, "types": len(small)})
+
+
+def c17_pass(ctx, types, root, stage1_deps, stage2_deps, main):
     chunk = 1500
     chunks = [types[i:i + chunk] for i in range(0, len(types), chunk)]
     env = dict(common.ENV)
@@ -331,7 +375,7 @@ def run_c17(ctx):
     for ci, ch in enumerate(chunks):
         d = os.path.join(root, "s1_%d" % ci)
         body = "".join("    p::<%s>(%d, %s);\n" % (t, ci * chunk + i, json.dumps(t)) for i, t in enumerate(ch))
-        write_crate(d, "tn_s1_%d" % ci, 'truc = { path = "/repo/truc" }\n', STAGE1_HEAD + body + "}\n")
+        write_crate(d, "tn_s1_%d" % ci, stage1_deps, STAGE1_HEAD + body + "}\n")
         jobs.append(("s1_%d" % ci, ["cargo", "run", "--offline", "-q"], d, env))
     with common.Lock("tn-build"):
         res = ctx.run_parallel(jobs, 3600, max_workers=4)
@@ -346,7 +390,7 @@ def run_c17(ctx):
         ctx.inconclusive.append("stage 1 answered for %d of %d types" % (len(recorded), len(types)))
     for idx, (lit, name, problems) in sorted(recorded.items()):
         ctx.evaluations += 1
-        if depth(lit) >= 2:
+        if depth(lit) >= 2 and main:
             ctx.distinct += 1
         ctx.count("type_table_lookups", 7)
         if problems:
@@ -364,7 +408,7 @@ def run_c17(ctx):
                     lit, name, _ = pending[idx]
                     line_of[(ci, len(STAGE2_HEAD.splitlines()) + len(lines) + 1)] = idx
                     lines.append("    check::<%s, %s>(%d);\n" % (lit, name, idx))
-            write_crate(d, "tn_s2_%d" % ci, "", STAGE2_HEAD + "".join(lines) + "}\n")
+            write_crate(d, "tn_s2_%d" % ci, stage2_deps, STAGE2_HEAD + "".join(lines) + "}\n")
             jobs.append((ci, ["cargo", "run", "--offline", "-q"], d, env))
         with common.Lock("tn-build"):
             res = ctx.run_parallel(jobs, 3600, max_workers=4)
@@ -398,6 +442,8 @@ def run_c17(ctx):
                     pending.pop(idx, None)
         if not failed:
             break
+    if not main:
+        return
     for t in types[:2] + types[len(BASE) + 40:len(BASE) + 42] + types[-3:]:
         ctx.samples.append(t)
     ctx.count("max_nesting_depth", max(depth(t) for t in types))
